@@ -981,7 +981,35 @@ fn slice_exact_length(i: &Input) -> Outcome {
     Ok(())
 }
 
+/// sk_c, sk_s (kx secret keys): `Session::into_parts` returns (rx, tx) — the same keys as the rx/tx views and as libsodium's
+/// crypto_kx_client_session_keys / crypto_kx_server_session_keys (rx first), and the other objects' parts round-trip.
+fn kx_session_parts(i: &Input) -> Outcome {
+    use dryoc::kx::{KeyPair, Session, SessionKey};
+    let (sc, ss) = (i.arr::<32>("sk_c"), i.arr::<32>("sk_s"));
+    let kc: KeyPair = KeyPair::from_secret_key(dryoc::kx::SecretKey::from(sc));
+    let ks: KeyPair = KeyPair::from_secret_key(dryoc::kx::SecretKey::from(ss));
+    let want = so::kx_client(dryoc::types::ByteArray::as_array(&kc.public_key), &sc, dryoc::types::ByteArray::as_array(&ks.public_key));
+    let sess: Session<SessionKey> = must_ok(Session::new_client_with_defaults(&kc, &ks.public_key), "Session::new_client_with_defaults")?;
+    let (rxv, txv) = (sess.rx_as_slice().to_vec(), sess.tx_as_slice().to_vec());
+    let (rx, tx) = sess.into_parts();
+    eq("Session::into_parts().0 vs rx_as_slice()", &rxv, rx.as_slice())?;
+    eq("Session::into_parts().1 vs tx_as_slice()", &txv, tx.as_slice())?;
+    if let Some((wrx, wtx)) = want {
+        eq("client Session::into_parts().0 vs libsodium rx", &wrx, rx.as_slice())?;
+        eq("client Session::into_parts().1 vs libsodium tx", &wtx, tx.as_slice())?;
+    }
+    let want_s = so::kx_server(dryoc::types::ByteArray::as_array(&ks.public_key), &ss, dryoc::types::ByteArray::as_array(&kc.public_key));
+    let sess: Session<SessionKey> = must_ok(Session::new_server_with_defaults(&ks, &kc.public_key), "Session::new_server_with_defaults")?;
+    let (rx, tx) = sess.into_parts();
+    if let Some((wrx, wtx)) = want_s {
+        eq("server Session::into_parts().0 vs libsodium rx", &wrx, rx.as_slice())?;
+        eq("server Session::into_parts().1 vs libsodium tx", &wtx, tx.as_slice())?;
+    }
+    Ok(())
+}
+
 pub const C16: Registry = &[
+    ("kx_session_parts", kx_session_parts),
     ("from_bytes_min_length", from_bytes_min_length),
     ("slice_exact_length", slice_exact_length),
     ("secretbox_bytes_roundtrip", secretbox_bytes),
@@ -1024,6 +1052,10 @@ pub fn c16(ctx: &mut Ctx) -> Search {
             ctx.run("json_seq_length", inp.clone())?;
             ctx.run("bincode_bytes_length", inp)?;
         }
+    }
+    for _ in 0..(if t { 16 } else { 3 }) {
+        let (a, b) = (ctx.rng.arr::<32>(), ctx.rng.arr::<32>());
+        ctx.run("kx_session_parts", Input::new().b("sk_c", &a).b("sk_s", &b))?;
     }
     for count in 0..=130usize {
         let x: Vec<u8> = (0..count).map(|j| (j as u8).wrapping_mul(7).wrapping_add(3)).collect();
